@@ -603,4 +603,68 @@ theorem crash_nomd (fs : FS) (hmd : fs.md = none) (cfg' : Cfg) (hok : CfgOk cfg'
   rw [hstep]
   simp
 
+/-! ### a depth-stale queue is a FIFO for every future operation -/
+
+theorem QD_cfg {s s0 : St} (e : E s0 s) : s.cfg = s0.cfg := (E_pos e).2.2.2.2.2.2.1
+
+theorem put_ok_QD {s : St} {q : List Bytes} (h : QD s q) (d : Bytes) (hv : ValidRec s.cfg d) :
+    (put s d).1 = .ok ∧ QD (put s d).2 (q ++ [d]) := by
+  obtain ⟨s0, e, hq⟩ := h
+  obtain ⟨a, b⟩ := put_ok_Q hq d (by rw [← QD_cfg e]; exact hv)
+  obtain ⟨c1, c2⟩ := E_put e d
+  exact ⟨by rw [c1]; exact a, _, c2, b⟩
+
+theorem put_invalid_QD {s : St} {q : List Bytes} (h : QD s q) (d : Bytes) (hv : ¬ ValidRec s.cfg d) :
+    (put s d).1 = .invalid ∧ QD (put s d).2 q := by
+  obtain ⟨s0, e, hq⟩ := h
+  obtain ⟨a, b⟩ := put_invalid_Q hq d (by rw [← QD_cfg e]; exact hv)
+  obtain ⟨c1, c2⟩ := E_put e d
+  exact ⟨by rw [c1]; exact a, _, c2, b⟩
+
+theorem recv_head_QD {s : St} {d : Bytes} {q : List Bytes} (h : QD s (d :: q)) :
+    (recv s).1 = some d ∧ QD (recv s).2 q := by
+  obtain ⟨s0, e, hq⟩ := h
+  obtain ⟨a, b⟩ := recv_head_Q hq
+  obtain ⟨c1, c2⟩ := E_recv e
+  exact ⟨by rw [c1]; exact a, _, c2, b⟩
+
+theorem recv_none_QD {s : St} (h : QD s []) : (recv s).1 = none ∧ QD (recv s).2 [] := by
+  obtain ⟨s0, e, hq⟩ := h
+  have a := recv_none_Q hq
+  obtain ⟨c1, c2⟩ := E_recv e
+  refine ⟨by rw [c1, a], _, c2, ?_⟩
+  rw [a]; exact hq
+
+theorem empty_QD {s : St} {q : List Bytes} (h : QD s q) :
+    (empty s).1 = true ∧ QD (empty s).2 [] ∧ (∀ i, (empty s).2.fs.dat i = none) := by
+  obtain ⟨s0, e, hq⟩ := h
+  obtain ⟨a, b, c, _⟩ := empty_Q hq
+  obtain ⟨c1, c2⟩ := E_empty e
+  refine ⟨by rw [c1]; exact a, ⟨_, c2, b⟩, ?_⟩
+  intro i
+  rw [(E_pos c2).2.2.2.2.2.2.2.2.2.1]
+  exact c i
+
+theorem reopen_QD {s : St} {q : List Bytes} (h : QD s q) (cfg' : Cfg) (hok : CfgOk cfg')
+    (hmin : cfg'.minMsgSize = s.cfg.minMsgSize) (hmax : cfg'.maxMsgSize = s.cfg.maxMsgSize) :
+    QD (openQ cfg' (close s).fs) q := by
+  obtain ⟨s0, e, hq⟩ := h
+  have hc := QD_cfg e
+  exact ⟨_, E_reopen e cfg', reopen_Q hq cfg' hok (by rw [hmin, hc]) (by rw [hmax, hc])⟩
+
+/-- once `Depth()` is right again (and no sync is pending) the queue is healthy in the full sense -/
+theorem Q_of_QD {s : St} {q : List Bytes} (h : QD s q) (hd : s.depth = (q.length : Int)) (hn : s.needSync = false) :
+    Q s q := by
+  obtain ⟨s0, e, pre, recs, a, b, c⟩ := h
+  obtain ⟨dp, ns, ct, md, rfl⟩ := e
+  have hd0 : dp = s0.depth := by
+    have : (upd s0 dp ns ct md).depth = dp := rfl
+    rw [this] at hd
+    rw [hd, a.depth, ← c]; rfl
+  have hn0 : ns = false := hn
+  subst hd0 hn0
+  refine ⟨pre, recs, rep_md a md false ct, ⟨rfl, ?_⟩, c⟩
+  intro hcr
+  exact b.2 hcr
+
 end Nsq.Proofs.DiskQueue
